@@ -76,6 +76,7 @@ import io
 import itertools
 import json
 import logging
+import os
 import random
 import re
 import sys
@@ -98,6 +99,20 @@ COMMON = "django.middleware.common.CommonMiddleware"
 DEV_CL = "content-length-set-by-inner-layer-and-body-changed:content-length-left-stale"
 
 _uniq = itertools.count(1)
+_MAIN_PID = os.getpid()
+_child_ready = False
+WORKERS = 6
+
+
+def _child_init() -> None:
+    """In a forked worker: asgiref's global single-thread executor believes it still has the parent's
+    thread; give the worker a fresh one (otherwise sync_to_async never runs there)."""
+    global _child_ready
+    if os.getpid() != _MAIN_PID and not _child_ready:
+        from concurrent.futures import ThreadPoolExecutor
+        from asgiref.sync import SyncToAsync
+        SyncToAsync.single_thread_executor = ThreadPoolExecutor(max_workers=1)
+        _child_ready = True
 R_ID = re.compile(r"data-djc-id-\w{6}")
 R_MARK = re.compile(rb"<!--\s*_RENDERED\s+([^,\s]+),")
 CORE_SCRIPT = b"django_components.min.js"
@@ -135,10 +150,11 @@ def _echo_handler(who: str, name: str, via_rtr: bool):
     from django.http import HttpResponse
 
     def handler(self, request, *args, **kwargs):
+        comp = self if who == "comp" else self.component
         echo = json.dumps({"who": who, "h": name, "method": request.method, "args": list(args), "kwargs": kwargs,
-                           "q": request.GET.get("q")}, sort_keys=True)
+                           "q": request.GET.get("q"), "inst": comp is getattr(type(comp), "vf_instance", None)},
+                          sort_keys=True)
         if via_rtr:
-            comp = self if who == "comp" else self.component
             return comp.render_to_response(kwargs={"echo": echo})
         return HttpResponse(echo, content_type="application/json")
     handler.__name__ = name
@@ -146,7 +162,7 @@ def _echo_handler(who: str, name: str, via_rtr: bool):
 
 
 def make_view_component(name: str, vd, cd, names, names_via: str, *, rtr_all: bool = False, template: str = None,
-                        assets: bool = True):
+                        assets: bool = True, on: str = "class"):
     """A real Component with handlers `cd` on itself and `vd` on a nested View(ComponentView); returns
     (class, view function).  names: None = http_method_names untouched."""
     from django_components import Component, ComponentView
@@ -166,16 +182,19 @@ def make_view_component(name: str, vd, cd, names, names_via: str, *, rtr_all: bo
             vdct["http_method_names"] = list(names)
         d["View"] = type("View", (ComponentView,), vdct)
     cls = type(name, (Component,), d)
+    target = cls
+    if on == "instance":
+        target = cls.vf_instance = cls()
     if names is not None and names_via != "class":
-        view = cls.as_view(http_method_names=list(names))
+        view = target.as_view(http_method_names=list(names))
     else:
-        view = cls.as_view()
+        view = target.as_view()
     return cls, view
 
 
 def classify_answer(resp, exc: Optional[BaseException]) -> Tuple[Dict[str, Any], Dict[str, Any]]:
     """Project what the dispatch did onto HttpSurface's answer record, plus what the handler saw."""
-    seen: Dict[str, Any] = {"method": "", "args": None, "kwargs": None}
+    seen: Dict[str, Any] = {"method": "", "args": None, "kwargs": None, "inst": False}
     if exc is not None:
         return {"res": "raises", "st": 0, "who": type(exc).__name__, "h": "", "allow": []}, seen
     st = resp.status_code
@@ -193,7 +212,7 @@ def classify_answer(resp, exc: Optional[BaseException]) -> Tuple[Dict[str, Any],
     if st == 405:
         return {"res": "405", "st": 405, "who": "none", "h": "", "allow": allow}, seen
     if echo is not None:
-        seen = {"method": echo["method"].lower(), "args": echo["args"], "kwargs": echo["kwargs"]}
+        seen = {"method": echo["method"].lower(), "args": echo["args"], "kwargs": echo["kwargs"], "inst": echo["inst"]}
         return {"res": "handled", "st": st, "who": echo["who"], "h": echo["h"], "allow": []}, seen
     if st == 200 and "Allow" in resp.headers and body == "":
         return {"res": "options", "st": 200, "who": "auto", "h": "", "allow": allow}, seen
@@ -215,12 +234,12 @@ def replay_dispatch(row: Dict[str, Any]) -> Optional[Tuple[Dict[str, Any], Optio
     vd, cd, names = sorted(row["vd"]), sorted(row["cd"]), sorted(row["names"])
     restricted = set(names) != set(ALL_METHODS)
     names_via = "class" if (len(vd) + len(cd) + len(names)) % 2 == 0 else "initkwargs"
-    ck = canon([vd, cd, names if restricted else None, names_via, row["kw"]])
+    ck = canon([vd, cd, names if restricted else None, names_via, row["kw"], row["on"]])
     if ck not in _VIEW_CACHE:
         if len(_VIEW_CACHE) > 4000:
             _VIEW_CACHE.clear()
         name = f"X04D{next(_uniq)}"
-        _, view = make_view_component(name, vd, cd, names if restricted else None, names_via)
+        _, view = make_view_component(name, vd, cd, names if restricted else None, names_via, on=row["on"])
         kind, route, url, args, kwargs = KW_SHAPES[row["kw"]]
         pat = path(route, view) if kind == "path" else re_path(route, view)
         _VIEW_CACHE[ck] = (URLResolver(RegexPattern(r"^/"), [pat]), url, args, kwargs)
@@ -235,10 +254,10 @@ def replay_dispatch(row: Dict[str, Any]) -> Optional[Tuple[Dict[str, Any], Optio
     obs, seen = classify_answer(resp, exc)
     if same_answer(obs, row["exp"]):
         if obs["res"] == "handled":
-            want_method = row["seen"]["method"]
-            if (seen["method"], seen["args"], seen["kwargs"]) != (want_method, args, kwargs):
-                return {"what": "handler-did-not-receive-request-and-url-arguments",
-                        "expected": {"method": want_method, "args": args, "kwargs": kwargs}, "observed": seen}, None
+            want = {"method": row["seen"]["method"], "args": args, "kwargs": kwargs, "inst": row["seen"]["inst"]}
+            if seen != want:
+                return {"what": "handler-did-not-receive-request-and-url-arguments-on-the-right-instance",
+                        "expected": want, "observed": seen}, None
         if obs["res"] == "options" and resp.content != b"":
             return {"what": "automatic-options-has-a-body", "observed": resp.content[:80]}, None
         return None
@@ -323,6 +342,8 @@ def replay_rtr(row: Dict[str, Any]) -> Optional[Dict[str, Any]]:
            "inlined": 1 if (ncss, njs) == (1, 1) else (0 if (ncss, njs) == (0, 0) else -1),
            "declared": _declared(html, cls),
            "sameAsRender": R_ID.sub("ID", html) == R_ID.sub("ID", str(ref))}
+    if obs != exp:
+        return {"what": "render_to_response", "expected": exp, "observed": obs}
     if i["rc"] == "custom":
         a, k = r.vf_init
         want_a = ("application/xhtml+xml", status) if i["pos"] else ()
@@ -330,8 +351,6 @@ def replay_rtr(row: Dict[str, Any]) -> Optional[Dict[str, Any]]:
         if a[1:] != want_a or k != want_k or R_ID.sub("ID", str(a[0])) != R_ID.sub("ID", str(ref)):
             return {"what": "response_class-called-with-other-arguments", "expected": [list(want_a), want_k],
                     "observed": [repr(a[1:]), repr(k)]}
-    if obs != exp:
-        return {"what": "render_to_response", "expected": exp, "observed": obs}
     return None
 
 
@@ -614,6 +633,7 @@ _MW: Dict[str, Any] = {}
 
 def _walk_init(n: int) -> Dict[str, Any]:
     """All layer sequences x vias from initial response n; every step judged against the table."""
+    _child_init()
     tab: MwTable = _MW["tab"]
     A: Assets = _MW["assets"]
     depth: int = _MW["depth"]
@@ -687,13 +707,13 @@ def tla_strs(xs) -> str:
     return tla_set(f'"{x}"' for x in xs)
 
 
-def write_cfg(path, family: str, ms=(), split=False, namesets=(), reqms=(), kws=(), maxdepth=3,
+def write_cfg(path, family: str, ms=(), split=False, namesets=(), reqms=(), kws=(), ons=("class",), maxdepth=3,
               kinds=("http", "template", "stream", "file"), cts=tuple(ALL_CT), sts=(200, 404), cls=("absent", "ok"),
               shapes=("doc", "frag", "text"), markseqs="MarkSeqsAll") -> None:
     path.write_text(
         "SPECIFICATION MCSpec\nCONSTANTS\n"
         f'  Family = "{family}"\n  Ms = {tla_strs(ms)}\n  Split = {"TRUE" if split else "FALSE"}\n'
-        f"  NameSets = {tla_set(tla_strs(n) for n in namesets)}\n  ReqMs = {tla_strs(reqms)}\n  Kws = {tla_strs(kws)}\n"
+        f"  NameSets = {tla_set(tla_strs(n) for n in namesets)}\n  ReqMs = {tla_strs(reqms)}\n  Kws = {tla_strs(kws)}\n  Ons = {tla_strs(ons)}\n"
         f"  MaxDepth = {maxdepth}\n  Kinds = {tla_strs(kinds)}\n  Cts = {tla_strs(cts)}\n"
         f"  Sts = {tla_set(str(s) for s in sts)}\n  Cls = {tla_strs(cls)}\n  Shapes = {tla_strs(shapes)}\n"
         f"  MarkSeqs <- {markseqs}\n  NC = 3\n  Assets = {{1, 2}}\n"
@@ -702,7 +722,8 @@ def write_cfg(path, family: str, ms=(), split=False, namesets=(), reqms=(), kws=
 
 def dispatch_family(chk: Check, quick: bool, small: bool = False) -> None:
     confs = [
-        ("D1", dict(ms=ALL_METHODS, split=False, namesets=[ALL_METHODS], reqms=ALL_METHODS + ["propfind"], kws=["pk"])),
+        ("D1", dict(ms=ALL_METHODS, split=False, namesets=[ALL_METHODS], reqms=ALL_METHODS + ["propfind"], kws=["pk"],
+                    ons=["class", "instance"])),
         ("D2", dict(ms=["get", "post", "head", "options"], split=True,
                     namesets=[ALL_METHODS, ["get"], ["get", "post", "options"], ["post", "head"]],
                     reqms=["get", "post", "head", "options", "put"],
@@ -717,16 +738,19 @@ def dispatch_family(chk: Check, quick: bool, small: bool = False) -> None:
         if small:
             rows = rows[:: max(1, len(rows) // 2500)]
         handled = 0
-        for row in rows:
+        from .pool import pmap
+        results = pmap(replay_dispatch, rows, workers=WORKERS, per_item_s=10.0, chunk=500)
+        for row, bad in zip(rows, results):
+            if isinstance(bad, dict) and bad.get("hang"):
+                raise MachineryError(f"dispatch case did not finish: {row}")
             nontrivial = bool(row["vd"] or row["cd"])
-            chk.count(["dispatch", row["vd"], row["cd"], row["names"], row["m"], row["kw"]], nontrivial)
-            bad = replay_dispatch(row)
+            chk.count(["dispatch", row["vd"], row["cd"], row["names"], row["m"], row["kw"], row["on"]], nontrivial)
             handled += row["exp"]["res"] == "handled"
             if bad:
                 chk.violation({"kind": "dispatch", "row": row}, bad[0], key=bad[1])
         chk.add("dispatch_cases_replayed", len(rows))
         chk.add("dispatch_cases_answered_by_a_handler", handled)
-        chk.sample({"dispatch": {k: rows[len(rows) // 3][k] for k in ("vd", "cd", "names", "m", "kw", "exp")}}, limit=4)
+        chk.sample({"dispatch": {k: rows[len(rows) // 3][k] for k in ("vd", "cd", "names", "m", "kw", "on", "exp")}}, limit=4)
         _VIEW_CACHE.clear()
 
 
@@ -757,8 +781,11 @@ def mw_family(chk: Check, quick: bool, small: bool = False) -> None:
     _MW.update(tab=tab, assets=A, depth=kw["maxdepth"])
     try:
         reached = set()
-        for n in range(len(tab.inits)):
-            res = _walk_init(n)
+        from .pool import pmap
+        results = pmap(_walk_init, list(range(len(tab.inits))), workers=WORKERS, per_item_s=30.0, chunk=16)
+        for n, res in enumerate(results):
+            if res.get("hang") or "viol" not in res:
+                raise MachineryError(f"pipeline walk from initial response {n} did not finish: {res}")
             for case, detail, key in res["viol"] + res["known"]:
                 chk.violation(case, detail, key=key)
             chk.add("mw_pipelines_run", res["runs"])
@@ -806,19 +833,33 @@ class Site:
     """A real site: components mounted as views + plain views returning arbitrary responses."""
 
     def __init__(self, rnd: random.Random, tag: str):
+        """Classes 1..nv are mounted as views (whole-document templates, optionally rendering one leaf);
+        classes nv+1..n are leaves, used as children and as the markers in the bodies of plain views."""
         from django.urls import path, re_path
-        n = rnd.randint(2, 5)
-        self.n = n
-        self.assets = sorted(c for c in range(1, n + 1) if rnd.random() < 0.75) or [1]
+        from django_components import Component
         from . import prog
+        nv, nl = rnd.randint(2, 4), rnd.randint(2, 3)
+        n = nv + nl
+        self.nv, self.n = nv, n
+        self.leaves = list(range(nv + 1, n + 1))
+        self.assets = sorted(c for c in range(1, n + 1) if rnd.random() < 0.75) or [n]
         self.reg, _ = prog.registry("django")
         self.uid = next(_uniq)
-        self.comps: List[Dict[str, Any]] = []
-        self.classes: List[Any] = []
-        self.names: List[str] = []
+        self.comps: List[Dict[str, Any]] = [None] * n          # type: ignore[list-item]
+        self.classes: List[Any] = [None] * n
+        self.names: List[str] = [f"x04s_{c}" for c in range(1, n + 1)]
         pats = []
         self.pages: List[Dict[str, Any]] = []
-        for c in range(1, n + 1):
+        for c in self.leaves:
+            name = f"X04S{self.uid}L{c}"
+            d: Dict[str, Any] = {"template": f"<div class=\"l{c}\">leaf{c}</div>", "__module__": __name__}
+            if c in self.assets:
+                d["js"] = js_tok(name)
+                d["css"] = css_tok(name)
+            self.classes[c - 1] = type(name, (Component,), d)
+            self.reg.register(self.names[c - 1], self.classes[c - 1])
+            self.comps[c - 1] = {"vd": [], "cd": [], "names": ALL_METHODS, "child": 0, "kw": "none", "on": "class", "url": ""}
+        for c in range(1, nv + 1):
             style = rnd.random()
             pool = ALL_METHODS if rnd.random() < 0.5 else ["get", "post", "head", "options", "delete"]
             defined = [m for m in pool if rnd.random() < 0.4]
@@ -832,28 +873,30 @@ class Site:
             names = None
             if rnd.random() < 0.3:
                 names = sorted(set(rnd.sample(ALL_METHODS, rnd.randint(1, 4))) | ({"get"} if rnd.random() < 0.5 else set()))
-            child = rnd.randint(1, c - 1) if c > 1 and rnd.random() < 0.5 else 0
+            child = rnd.choice(self.leaves) if rnd.random() < 0.6 else 0
             kw = rnd.choice(list(KW_SHAPES))
             name = f"X04S{self.uid}C{c}"
-            regname = f"x04s_{c}"
             tpl = ("{% load lib_django %}<html><head><title>[[T0]]</title></head><body><h1>c" + str(c) + "</h1>" +
-                   ('{% c_django "x04s_' + str(child) + '" / %}' if child else "") +
+                   ('{% c_django "' + self.names[child - 1] + '" / %}' if child else "") +
                    "[echo={{ echo|safe }}][[T1]]</body></html>")
+            on = rnd.choice(["class", "class", "instance"])
             cls, view = make_view_component(name, vd, cd, names, rnd.choice(["class", "initkwargs"]), rtr_all=True,
-                                            template=tpl, assets=c in self.assets)
-            self.reg.register(regname, cls)
-            self.names.append(regname)
-            self.classes.append(cls)
+                                            template=tpl, assets=c in self.assets, on=on)
+            self.reg.register(self.names[c - 1], cls)
+            self.classes[c - 1] = cls
             kind, route, url, args, kwargs = KW_SHAPES[kw]
             route_c = route.replace("v/", f"c{c}/", 1)
             pats.append(path(route_c, view) if kind == "path" else re_path(route_c, view))
-            self.comps.append({"vd": sorted(vd), "cd": sorted(cd), "names": sorted(names) if names is not None else ALL_METHODS,
-                               "child": child, "kw": kw, "url": url.replace("/v/", f"/c{c}/", 1)})
+            self.comps[c - 1] = {"vd": sorted(vd), "cd": sorted(cd),
+                                 "names": sorted(names) if names is not None else ALL_METHODS,
+                                 "child": child, "kw": kw, "on": on, "url": url.replace("/v/", f"/c{c}/", 1)}
         # the marker bookkeeping of Assets, over the site's own classes
         self.A = Assets(n, self.assets, tag="s", classes=self.classes, names=self.names)
         for k in range(rnd.randint(3, 6)):
             self.pages.append(self.random_page(rnd))
             pats.append(path(f"p{k}/", self.page_view(k)))
+        from django.urls import include
+        pats.append(path("", include("django_components.urls")))     # installation.md step 3
         self.urlconf = types.ModuleType(f"vf_x04_urls_{self.uid}")
         self.urlconf.urlpatterns = pats
         sys.modules[self.urlconf.__name__] = self.urlconf
@@ -862,7 +905,7 @@ class Site:
         kind = rnd.choice(["http", "http", "http", "template", "stream", "file"])
         ct = rnd.choice(HTML_CT * 3 + OTHER_CT + UNSPEC_CT)
         shape = rnd.choice(["doc", "doc", "doc", "frag", "text"])
-        marks = [] if shape == "text" else [rnd.randint(1, self.n) for _ in range(rnd.choice([0, 1, 2, 3, 5]))]
+        marks = [] if shape == "text" else [rnd.choice(self.leaves) for _ in range(rnd.choice([0, 1, 2, 3, 5]))]
         cl = "ok" if kind == "file" else ("absent" if kind == "stream" else rnd.choice(["absent", "absent", "ok"]))
         st = rnd.choice([200, 200, 200, 201, 404, 403, 500]) if kind == "http" else 200
         zero = [0] * self.n
@@ -912,7 +955,7 @@ def record_session(rnd: random.Random, tid: int, length: int) -> Dict[str, Any]:
             h = make_handler(layers, is_async)
             rf = _rf()
             if rnd.random() < 0.6:
-                c = rnd.randint(1, site.n)
+                c = rnd.randint(1, site.nv)
                 info = site.comps[c - 1]
                 if rnd.random() < 0.6 and (info["vd"] or info["cd"]):
                     m = rnd.choice(info["vd"] + info["cd"] + ["head", "options"])
@@ -961,7 +1004,7 @@ def record_session(rnd: random.Random, tid: int, length: int) -> Dict[str, Any]:
                 _, _, _, args, kwargs = KW_SHAPES[ev["kw"]]
                 ev["ans"] = ans
                 got_kw = ev["kw"] if (seen["args"], seen["kwargs"]) == (args, kwargs) else "other"
-                ev["seen"] = {"method": seen["method"], "kw": got_kw}
+                ev["seen"] = {"method": seen["method"], "kw": got_kw, "inst": seen["inst"]}
             else:
                 if r0 != site.pages[ev["page"]]:
                     raise MachineryError(f"concretisation of page is wrong:\nwant {site.pages[ev['page']]}\ngot  {r0}")
@@ -971,7 +1014,7 @@ def record_session(rnd: random.Random, tid: int, length: int) -> Dict[str, Any]:
         signals.got_request_exception.disconnect(on_exc)
         Tap.make_frame = None
         site.close()
-    comps = [{"vd": c["vd"], "cd": c["cd"], "names": c["names"], "child": c["child"]} for c in site.comps]
+    comps = [{"vd": c["vd"], "cd": c["cd"], "names": c["names"], "child": c["child"], "on": c["on"]} for c in site.comps]
     return {"id": tid, "assets": site.assets, "comps": comps, "events": events}
 
 
@@ -1012,6 +1055,92 @@ def validate_sessions(chk: Check, ntraces: int, length: int) -> None:
     chk.add("trace_states", r.distinct)
     e0 = traces[0]["events"][0]
     chk.sample({"trace_head": {"comps": traces[0]["comps"][:2], "event": {k: e0[k] for k in e0 if k != "r0"}}}, limit=10)
+
+
+def corrupted_traces() -> int:
+    """Selftest (i): corrupt one field of a recorded session; Trace_X04 must reject it at that event
+    with the right clause.  Returns the number of corruptions NOT rejected as expected."""
+    import copy
+    rnd = random.Random(4040)
+    base = [record_session(rnd, i + 1, 40) for i in range(8)]
+
+    def handled(e, t):
+        return e["op"] == "view" and e["ans"]["res"] == "handled"
+
+    def html_page(e, t, need_cl=None):
+        r = e["r0"]
+        return (e["op"] == "page" and r["ct"] in HTML_CT and r["kind"] in ("http", "template") and r["body"]["shape"] == "doc"
+                and any(c in t["assets"] for c in r["body"]["marks"]) and e["pipe"] and e["pipe"][0]["layer"] == "cdm"
+                and (need_cl is None or r["cl"] == need_cl))
+
+    def other_page(e, t):
+        r = e["r0"]
+        return e["op"] == "page" and r["ct"] in OTHER_CT and r["body"]["marks"] and e["pipe"] and e["pipe"][0]["layer"] == "cdm"
+
+    def with_common(e, t):
+        return bool(e["pipe"]) and e["pipe"][0]["layer"] == "common"
+
+    def bump(e, t):
+        c = next(c for c in e["r0"]["body"]["marks"] if c in t["assets"])
+        e["pipe"][0]["r"]["body"]["css"][c - 1] += 1
+
+    muts = [
+        ("answered-by-the-other-owner", "answer", handled,
+         lambda e, t: e["ans"].update(who="view" if e["ans"]["who"] == "comp" else "comp")),
+        ("handled-turned-into-405", "answer", handled,
+         lambda e, t: e["ans"].update(res="405", st=405, who="none", h="", allow=["options"])),
+        ("handler-saw-other-url-arguments", "seen", handled, lambda e, t: e["seen"].update(kw="other")),
+        ("handler-ran-on-another-instance", "seen", handled, lambda e, t: e["seen"].update(inst=not e["seen"]["inst"])),
+        ("handler-saw-another-method", "seen", handled, lambda e, t: e["seen"].update(method="get" if e["seen"]["method"] != "get" else "post")),
+        ("view-response-keeps-a-marker", "view_response", handled, lambda e, t: e["r0"]["body"].update(marks=[1])),
+        ("view-response-without-own-assets", "view_response", lambda e, t: handled(e, t) and e["c"] in t["assets"],
+         lambda e, t: e["r0"]["body"]["js"].__setitem__(e["c"] - 1, 0)),
+        ("markers-survive-the-middleware", "layer_cdm", html_page,
+         lambda e, t: e["pipe"][0]["r"]["body"].update(marks=list(e["r0"]["body"]["marks"]))),
+        ("asset-delivered-twice", "layer_cdm", html_page, bump),
+        ("non-html-response-stripped", "layer_cdm", other_page,
+         lambda e, t: (e["pipe"][0]["r"]["body"].update(marks=[]), e["pipe"][0].update(same=False))),
+        ("status-changed-by-the-middleware", "layer_cdm", html_page, lambda e, t: e["pipe"][0]["r"].update(st=500)),
+        ("header-lost-in-the-middleware", "layer_cdm", html_page, lambda e, t: e["pipe"][0]["r"].update(hk=False)),
+        ("stale-content-length-out-of-nothing", "layer_cdm", lambda e, t: html_page(e, t, "absent"),
+         lambda e, t: e["pipe"][0]["r"].update(cl="stale")),
+        ("text-lost-in-the-middleware", "layer_cdm", html_page, lambda e, t: e["pipe"][0]["r"]["body"].update(txt=False)),
+        ("common-middleware-step-changes-body", "layer_common", with_common, lambda e, t: e["pipe"][0].update(same=False)),
+    ]
+    traces, expect = [], {}
+    for name, clause, pred, mut in muts:
+        for t in base:
+            n = next((n for n, e in enumerate(t["events"]) if pred(e, t)), None)
+            if n is not None:
+                t2 = copy.deepcopy(t)
+                mut(t2["events"][n], t2)
+                t2["id"] = len(traces) + 1
+                traces.append(t2)
+                expect[t2["id"]] = (name, clause, n + 1)
+                break
+        else:
+            raise MachineryError(f"no recorded event to corrupt for {name}")
+    control = copy.deepcopy(base[0])
+    control["id"] = len(traces) + 1
+    traces.append(control)
+    w = workdir("x04cor")
+    f = w / "corrupted.ndjson"
+    tlc.write_ndjson(f, traces)
+    cfg = w / "trace.cfg"
+    cfg.write_text("SPECIFICATION TrSpec\n")
+    r = tlc.require_ok(tlc.run("Trace_X04", str(cfg), env={"IN": str(f)}, workers=1), "Trace_X04 corrupted")
+    v = tlc.verdicts(r, len(traces), "Trace_X04 corrupted")
+    missed = 0
+    for tid, (name, clause, ev) in expect.items():
+        why = v["rejected"].get(tid)
+        ok = why is not None and why["event"] == ev and f'"{clause}"' in why["clauses"]
+        print(f"  corrupted trace {name}: "
+              f"{'rejected at event %d by %s' % (ev, why['clauses']) if ok else 'NOT REJECTED AS EXPECTED ' + repr(why)}")
+        missed += 0 if ok else 1
+    if control["id"] not in v["accepted"]:
+        print("  control trace: NOT ACCEPTED")
+        missed += 1
+    return missed
 
 
 # ===================================================================== entry points
@@ -1101,12 +1230,16 @@ def selftest(tier: str) -> int:
 
     @contextmanager
     def patch(obj, name, new):
-        old = obj.__dict__[name] if isinstance(obj, type) else getattr(obj, name)
+        missing = object()
+        old = obj.__dict__.get(name, missing) if isinstance(obj, type) else getattr(obj, name)
         setattr(obj, name, new)
         try:
             yield
         finally:
-            setattr(obj, name, old)
+            if old is missing:
+                delattr(obj, name)
+            else:
+                setattr(obj, name, old)
 
     MW = dep.ComponentDependencyMiddleware
 
@@ -1198,14 +1331,26 @@ def selftest(tier: str) -> int:
 
     @contextmanager
     def patch_handlers(make):
-        olds = {m: CV.__dict__[m] for m in ALL_METHODS if m in CV.__dict__}
-        for m in olds:
-            setattr(CV, m, make(m))
-        try:
-            yield
-        finally:
-            for m, o in olds.items():
-                setattr(CV, m, o)
+        """Replace the way ComponentView reaches the component's handlers: the generated per-method
+        handlers (current tree), or the attribute lookup (a tree where View only has the handlers
+        that are defined)."""
+        if "get" in CV.__dict__:
+            olds = {m: CV.__dict__[m] for m in ALL_METHODS if m in CV.__dict__}
+            for m in olds:
+                setattr(CV, m, make(m))
+            try:
+                yield
+            finally:
+                for m, o in olds.items():
+                    setattr(CV, m, o)
+        else:
+            orig = CV.__getattr__
+
+            def ga(self, name):
+                orig(self, name)            # AttributeError when there is no handler
+                return types.MethodType(make(name), self)
+            with patch(CV, "__getattr__", ga):
+                yield
 
     def view_drops_url_kwargs():
         def make(m):
@@ -1237,12 +1382,19 @@ def selftest(tier: str) -> int:
             return comp.View.as_view(component=comp)
         return patch(Comp, "as_view", classmethod(f))
 
+    def as_view_new_instance():
+        def f(cls, **initkwargs):
+            comp = type(cls)() if isinstance(cls, Comp) else cls()
+            return comp.View.as_view(**initkwargs, component=comp)
+        return patch(Comp, "as_view", classmethod(f))
+
     def body(chk):
         global _KEEP_EXPORTS
         _KEEP_EXPORTS = True
         core(chk, "quick", small=True)
 
-    return run_probes(PID, [
+    missed = corrupted_traces()
+    rc = run_probes(PID, [
         ("middleware-processes-every-text/*", mw_processes_every_text_type),
         ("middleware-without-streaming-guard", mw_no_streaming_guard),
         ("middleware-async-path-skips-processing", mw_async_path_skips_processing),
@@ -1259,4 +1411,6 @@ def selftest(tier: str) -> int:
         ("view-sends-PUT-to-post", view_put_goes_to_post),
         ("component-handler-beats-View-handler", component_handler_beats_view),
         ("as_view-ignores-initkwargs", as_view_ignores_initkwargs),
+        ("as_view-on-instance-makes-a-new-instance", as_view_new_instance),
     ], body)
+    return 1 if (rc or missed) else 0
